@@ -3,7 +3,7 @@ import re
 from checks import valcomp
 from vlib.proto import unhex
 
-LEAN_TARGETS = ["LyModel.Props.C03", "LyModel.Props.C03Base", "LyModel.Props.C03Union", "LyModel.Props.C03Ident", "LyModel.Props.C03Pattern"]
+LEAN_TARGETS = ["LyModel.Props.C03", "LyModel.Props.C03Base", "LyModel.Props.C03Union", "LyModel.Props.C03Ident", "LyModel.Props.C03Pattern", "LyModel.Props.C03Dt"]
 AUDIT = "Audit/C03.lean"
 GENERATED = ["ValBounds", "Consts", "ValExt"]
 ASSUMPTIONS = [
@@ -25,6 +25,11 @@ TRUSTED = ["tools/extractors/val.py (bounds, LYB sizes, executed lyplg_type_chec
 def classify(component, what, case):
     if component != "val" or not isinstance(case, dict):
         return None
+    from checks import valdt
+    if hasattr(valdt, "classify_dt"):
+        r = valdt.classify_dt(component, what, case)
+        if r:
+            return r
     law = case.get("law")
     ty = case.get("type", "")
     head = ty.split(":")[0]
